@@ -255,6 +255,53 @@ def r_add_type(P, rep, rule, which):
             rep.ob(rule, 'type.c:add_type:ND_COMMA(%s)' % a, nt == ('int' if a == 'enum' else a), 'comma expression has type %s, C11 6.5.17: type of the right operand (%s)' % (nt, a), where=where)
 
 
+def r_atomic_builtin_operands(P, rep, rule):
+    """the value operand of __builtin_atomic_exchange / __builtin_compare_and_swap is converted to the type of the atomic object for every
+    arithmetic operand type (the code generator moves it in a general register of the object's width: an operand that stays floating or long
+    double is never taken from %xmm0 / the x87 stack), and the result has the object's type (exchange) / _Bool (compare-and-swap)"""
+    T = Types(P)
+    where = 'type.c:%d' % T.tu.fn('add_type').line
+    n_ob = 0
+    for base in ('bool', 'char', 'short', 'int', 'long', 'uchar', 'ushort', 'uint', 'ulong', 'float', 'double'):
+        for b in ARITH:
+            for kind, fld, ptrs in (('ND_EXCH', 'rhs', ('lhs',)), ('ND_CAS', 'cas_new', ('cas_addr', 'cas_old'))):
+                if kind not in T.E:
+                    raise AnalysisBroken('enumerator %s vanished' % kind)
+                it = T.interp(opaque=['error_tok'])
+                box = {}
+
+                def mk(ctx, kind=kind, fld=fld, ptrs=ptrs, base=base, b=b):
+                    it.ctx = ctx
+                    n = Obj('Node', lazy=False, label='node')
+                    n.fields['kind'] = T.E[kind]
+                    n.fields['tok'] = Obj('Token', lazy=True, label='tok')
+                    u, fn = it.find_def('pointer_to')
+                    bt = T.make(it, base)
+                    for pf in ptrs:
+                        leaf = typed_leaf(it, T, 'int', pf)
+                        leaf.fields['ty'] = it.call_fn(u, fn, [bt])
+                        n.fields[pf] = leaf
+                    n.fields[fld] = typed_leaf(it, T, b, fld)
+                    box['n'] = n; box['orig'] = n.fields[fld]
+                    return [n]
+                key = 'type.c:add_type:%s(%s object, %s operand)' % (kind, base, b)
+                outs = [(c, o) for c, o in it.explore('add_type', mk) if o[0] == 'ret']
+                errs = [c for c, o in outs if any(e[0] == 'call' and e[1] == 'error_tok' for e in c.events)]
+                outs = [(c, o) for c, o in outs if c not in errs]
+                if len(outs) != 1:
+                    rep.undecided(rule, key, 'add_type has %d accepting paths' % len(outs), where=where); continue
+                n = box['n']
+                wrapped, ot = cast_of(it, T, n.fields.get(fld), box['orig'])
+                nt = T.classify(it, n.fields.get('ty'))
+                want_nt = base if kind == 'ND_EXCH' else 'bool'
+                n_ob += 1
+                rep.ob(rule, key, ot == base and (wrapped or b == base) and nt == want_nt,
+                       '%s on an atomic object of type %s with a value operand of type %s: the operand has type %s afterwards%s and the result type is %s; the operand must be converted to %s '
+                       '(the code generator takes it from %%rax at the object\'s width; a float/double/long double operand left unconverted is never taken from %%xmm0 / the x87 stack) and the result be %s'
+                       % (kind, base, b, ot, '' if wrapped else ' [no conversion inserted]', nt, base, want_nt), where=where)
+    return n_ob
+
+
 # --------------------------------------------------------------- pointer arithmetic ---
 def r_pointer_scaling(P, rep, rule):
     """new_add / new_sub: p+n, n+p, p-n scale the integer by the element size in 64-bit arithmetic; p-q is a signed long divided by the element size"""
